@@ -364,6 +364,10 @@ func cmdC13(tier string, seed int64, out, statsOut, replay string) {
 		cfg.Overrides = map[string]*nfpm.Overridables{nm: {Depends: []string{"x"}}, "deb": {Depends: []string{"y"}}}
 		runC13Case(w, "unregistered-"+xs(nm), pkgDesc{YAML: marshalConfig(&cfg)}, st, rng)
 	}
+	// blocks for formats nobody registered that set nothing at all: an unknown format is unknown whatever its block holds
+	for i, blk := range []string{"  pacman:\n", "  pacman: {}\n", "  pacman:\n    scripts: {}\n", "  pacman:\n  deb:\n    depends: [d]\n", "  zst: {}\n  rpm:\n    depends: [r]\n"} {
+		runC13Case(w, fmt.Sprintf("unregistered-empty-block-%d", i), pkgDesc{YAML: "name: x\narch: amd64\nversion: 1.0.0\noverrides:\n" + blk}, st, rng)
+	}
 	// edge documents
 	for i, d := range []string{
 		"name: x\narch: amd64\nversion: 1.0.0\noverrides:\n  apk:\n  deb:\n    depends: [a]\n",
